@@ -13,7 +13,7 @@ TOL = 1e-9
 
 def generate(ctx):
     rng = ctx.rng
-    for _ in range(ctx.n(250, 12000)):
+    for _ in range(ctx.n(800, 12000)):
         cls = rng.choice(["generic-tree", "generic-tree", "generic-cyclic", "collinear-chain",
                           "partly-collinear", "nearly-collinear", "lattice", "two-atom", "one-atom"])
         pos, bonds, cls = E.gen_ref(rng, cls)
@@ -106,6 +106,10 @@ def evaluate(ctx, case):
         E.ask_model(ctx, case2, impl2, impl2["argpos"], impl2["draws_call"], impl2["out"], "map(deformed+1)")
     if not impl["inputs_unchanged"]:
         fails.append("inputs-modified")
+    if not impl["earlier_intact"]:
+        # the molecule returned by an EARLIER call of the same map (kept by the caller) changed when the map
+        # was applied again: what was returned for that conformation no longer satisfies the law
+        fails.append("earlier-result-changed-by-later-call")
     ctx.oracle_ok(len(tgt))
     for f in fails:
         ctx.oracle_fail(f"exchange_map:{f}:{case['cls']}", case, {"out": out})
